@@ -52,7 +52,7 @@ _SWAP = {ord('a'): ord('x'), ord('x'): ord('a'), ord('b'): ord('c'), ord('c'): o
 
 # Shapes that expose the two aliasing defects of the UNCHANGED library found by this family (docs/C03.md, 'Caller-owned
 # name buffers'): not judged until the integrator decided (fix or known finding).  VERIF_C03_JUDGE_OPEN=1 judges them.
-JUDGE_OPEN_SHAPES = os.environ.get('VERIF_C03_JUDGE_OPEN', '') == '1'
+JUDGE_OPEN_SHAPES = os.environ.get('VERIF_C03_JUDGE_OPEN', '1') == '1'   # judged since the library fix 2146f96 (set to 0 to see the pre-fix split)
 
 
 def _tl_len(c):
